@@ -97,6 +97,7 @@ func c11Cells(yield func(c11Cell)) {
 	str(model.TestSpec{Name: "digit"}, "abc")
 	str(model.TestSpec{Name: "special"}, "abc")
 	str(model.TestSpec{Name: "oneof", Args: []model.Val{model.Str("a"), model.Str("b")}}, "c")
+	str(model.TestSpec{Name: "oneof", Args: []model.Val{model.Str("only")}}, "c") // a list of one option is still a OneOf
 	str(model.TestSpec{Name: "len", N: 3, Not: true}, "abc")
 	str(model.TestSpec{Name: "email", Not: true}, "a@b.c")
 	str(model.TestSpec{Name: "url", Not: true}, "http://a.b")
@@ -120,7 +121,8 @@ func c11Cells(yield func(c11Cell)) {
 			tc{k, "", model.TestSpec{Name: "lte", Arg: num(5)}, *num(6)},
 			tc{k, "", model.TestSpec{Name: "gt", Arg: num(5)}, *num(5)},
 			tc{k, "", model.TestSpec{Name: "gte", Arg: num(5)}, *num(4)},
-			tc{k, "", model.TestSpec{Name: "oneof", Args: []model.Val{*num(1), *num(2)}}, *num(3)})
+			tc{k, "", model.TestSpec{Name: "oneof", Args: []model.Val{*num(1), *num(2)}}, *num(3)},
+			tc{k, "", model.TestSpec{Name: "oneof", Args: []model.Val{*num(5)}}, *num(3)})
 	}
 	bt, bf := model.Bool(true), model.Bool(false)
 	tests = append(tests,
